@@ -82,6 +82,9 @@ class RngWorld(World):
         }
         if rng.random() < 0.08:
             a["accel"] = rng.choice([1.0, 0.5])  # rejected before anything happens
+        elif rng.random() < 0.15:
+            a["accel"] = int(max(2, round(a["accel"])))  # integer acceleration
+        a["arg_types"] = rng.choice(["tuple", "tuple", "list", "numpy"])
         return a
 
     def gen_plan(self, seed, tier, config="jit"):
@@ -196,8 +199,19 @@ class RngWorld(World):
             elif op == "poisson":
                 args = plan["pool"][a["args"]]
                 before = state_digest()
-                kw = dict(calib=tuple(args["calib"]), dtype=np.dtype(args["dtype"]).type if args["dtype"] != "bool" else bool,
-                          crop_corner=args["crop_corner"], seed=args["seed"], max_attempts=args["max_attempts"],
+                at = args.get("arg_types", "tuple")
+                shape_arg = tuple(args["img_shape"])
+                calib_arg = tuple(args["calib"])
+                seed_arg = args["seed"]
+                if at == "list":
+                    shape_arg, calib_arg = list(shape_arg), list(calib_arg)
+                elif at == "numpy":
+                    shape_arg = tuple(np.int64(v) for v in shape_arg)
+                    calib_arg = tuple(np.int64(v) for v in calib_arg)
+                    if seed_arg is not None:
+                        seed_arg = np.int64(seed_arg)
+                kw = dict(calib=calib_arg, dtype=np.dtype(args["dtype"]).type if args["dtype"] != "bool" else bool,
+                          crop_corner=args["crop_corner"], seed=seed_arg, max_attempts=args["max_attempts"],
                           tol=args["tol"])
                 inner = samp._poisson
                 calls = {"n": 0}
@@ -209,7 +223,7 @@ class RngWorld(World):
                     return inner(*aa, **kk)
                 samp._poisson = counted
                 try:
-                    mask = samp.poisson(tuple(args["img_shape"]), args["accel"], **kw)
+                    mask = samp.poisson(shape_arg, args["accel"], **kw)
                 except CallBudgetExceeded:
                     raise Violation("poisson_does_not_terminate", site, step,
                                     {"args": args, "inner_calls": calls["n"], "jit": not jit_off})
@@ -236,7 +250,7 @@ class RngWorld(World):
                 if args["seed"] is not None:
                     if after != before:
                         raise Violation("global_rng_state_changed", site, step, {"args": args, "jit": not jit_off})
-                    key = codec.json_digest(args)
+                    key = codec.json_digest({kk: vv for kk, vv in args.items() if kk != "arg_types"})
                     dg = codec.bytes_digest(mask)
                     if key in first:
                         stats["probes.rng_repeat_compared"] += 1
